@@ -108,6 +108,14 @@ fn real_main(args: &[String]) -> i32 {
                     return 1;
                 }
             };
+            // optional process-wide log level ("debug" / "trace"), as the tracer's setLogger would set it
+            c16::install_log_sink();
+            log::set_max_level(match v["log_level"].as_str().unwrap_or("off") {
+                "error" => log::LevelFilter::Error,
+                "debug" => log::LevelFilter::Debug,
+                "trace" => log::LevelFilter::Trace,
+                _ => log::LevelFilter::Off,
+            });
             let n = v["repeat"].as_u64().unwrap_or(1);
             for _ in 0..n {
                 let r = exec::call(&cfg, v["source"].as_str().unwrap_or(""), v["file"].as_str().unwrap_or("a.js"), &fs, &faults);
